@@ -321,6 +321,31 @@ theorem c11_stats_step (env : Env J S C) (cfg : Cfg) (st st' : Stats) (raw : Tex
 
 /-! ## The coercion helper cannot make values up -/
 
+/-- non-vacuity: the JSON object `5` = `{k0: v10}` where `v10` is the string "4"; field `k0` is annotated `int`;
+    `int(v10)` is `v11`; the dict `{k0: v11}` is the JSON value `6`, which validates to structure `7`, while `5`
+    itself does not validate. -/
+def toyC : CEnv Nat Nat Nat where
+  isList _ := false
+  toDict j := if j = 5 then .ok [(0, 10)] else .raise (.other 2)
+  ofDict l := if l = [(0, 11)] then 6 else 0
+  fields := [(0, .int)]
+  isStr v := v == 10
+  isNum _ := false
+  intOf v := if v = 10 then some 11 else none
+  floatOf _ := none
+  strOf v := v
+  boolOf _ := none
+  splitOf v := v
+
+def toyEnvL : Env Nat Nat (Nat × Conv) where
+  loads t := if t = [123, 125] then .ok 5 else .raise .jsonDecode
+  isNone _ := false
+  findall _ _ := .ok []
+  sub _ t := .ok t
+  validate d := if d = 6 then .ok 7 else .raise .validation
+  coerce := coerceModel toyC
+
+
 /-- `_coerce_types_tracked`, for every behaviour of the Python primitives it uses (`isinstance`, `dict()`,
     `int()`, `float()`, `str()`, the bool literal sets, `split`), every schema and every parsed value: a list is
     returned untouched; a scalar makes `dict()` raise (which the cascade catches); for a dict the result has the same
@@ -334,6 +359,20 @@ theorem c11_coercion_is_conservative {K V : Type} [DecidableEq K] (c : CEnv J K 
       out.map (·.1) = d.map (·.1) ∧ (∀ e ∈ out, ∃ v, (e.1, v) ∈ d ∧ FromConv c e.1 v e.2) ∧
       ls.length ≤ c.fields.length ∧ ∀ l ∈ ls, LabelOk c l) :=
   coerceModel_spec c j
+
+/-- With distinct field names (as in every pydantic schema, whose `model_fields` is a dict) a value is converted
+    at most once: every value of the coerced dict is the old value of its key, or exactly one table conversion of
+    it, selected by that key's annotation. -/
+theorem c11_coercion_converts_at_most_once {K V : Type} [DecidableEq K] (c : CEnv J K V) (j : J)
+    (d : List (K × V)) (hd : c.toDict j = .ok d) (hl : c.isList j = false)
+    (hnd : (c.fields.map (·.1)).Nodup) :
+    ∃ out ls, coerceModel c j = .ok (c.ofDict out, ls) ∧
+      ∀ e ∈ out, ∃ v, (e.1, v) ∈ d ∧ (e.2 = v ∨ ∃ a cv, (e.1, a) ∈ c.fields ∧ convert c a v = some (e.2, cv)) := by
+  refine ⟨(coerceFields c c.fields d []).1, (coerceFields c c.fields d []).2, by simp [coerceModel, hl, hd], ?_⟩
+  exact coerceFields_once c c.fields d [] hnd
+
+example : toyC.toDict 5 = .ok [(0, 10)] ∧ toyC.isList 5 = false ∧ (toyC.fields.map (·.1)).Nodup ∧
+    coerceModel toyC 5 = .ok (6, [(0, .strToInt)]) := by decide
 
 /-- Put together for the LENIENT strategy: when the environment's coercion helper is the modelled one, a fold
     that is valid through LENIENT validated a value `d` that is either a JSON list present in the raw text, taken
@@ -363,30 +402,6 @@ theorem c11_lenient_values_come_from_the_text {K V : Type} [DecidableEq K] (env 
   · rw [heq] at hcoerce
     cases hcoerce
     exact Or.inr ⟨items, out, hd, rfl, hkeys, hvals⟩
-
-/-- non-vacuity: the JSON object `5` = `{k0: v10}` where `v10` is the string "4"; field `k0` is annotated `int`;
-    `int(v10)` is `v11`; the dict `{k0: v11}` is the JSON value `6`, which validates to structure `7`, while `5`
-    itself does not validate. -/
-def toyC : CEnv Nat Nat Nat where
-  isList _ := false
-  toDict j := if j = 5 then .ok [(0, 10)] else .raise (.other 2)
-  ofDict l := if l = [(0, 11)] then 6 else 0
-  fields := [(0, .int)]
-  isStr v := v == 10
-  isNum _ := false
-  intOf v := if v = 10 then some 11 else none
-  floatOf _ := none
-  strOf v := v
-  boolOf _ := none
-  splitOf v := v
-
-def toyEnvL : Env Nat Nat (Nat × Conv) where
-  loads t := if t = [123, 125] then .ok 5 else .raise .jsonDecode
-  isNone _ := false
-  findall _ _ := .ok []
-  sub _ t := .ok t
-  validate d := if d = 6 then .ok 7 else .raise .validation
-  coerce := coerceModel toyC
 
 example : toyEnvL.coerce = coerceModel toyC ∧
     ∃ st' r, (foldX toyEnvL ⟨[]⟩ Stats.zero rawClean []).res = .ok (st', r) ∧ r.valid = true ∧
